@@ -1,8 +1,163 @@
-(* C02/Proofs.v — lemmas about the quorum selection model. *)
+(* C02/Proofs.v — soundness, exact characterisation of success, completeness, monotonicity. *)
 From Coq Require Import List NArith Bool Lia Permutation Sorted.
 From MV Require Import Base.Prelude Base.SortUnique C02.Model.
+From MV Require Import C02.Spec C02.Proofs1 C02.Proofs2.
 Import ListNotations.
 Open Scope N_scope.
+
+Lemma valid_idx m o i : valid m o = true -> In i (idxs o) -> i < m /\ ~ In i (lost o).
+Proof.
+  unfold valid. intros H Hi. apply andb_true_iff in H as [_ H].
+  rewrite forallb_forall in H. specialize (H i Hi). apply andb_true_iff in H as [H1 H2].
+  apply N.ltb_lt in H1. split; [exact H1|]. intros Hc. apply memN_In in Hc. rewrite Hc in H2. discriminate.
+Qed.
+
+Lemma dom_cov V i : In i (domain (pass1 V)) <-> In i (flat_map idxs V).
+Proof.
+  rewrite domain_in, lookup_pass1. split.
+  - intros H. destruct (in_dec N.eq_dec i (flat_map idxs V)) as [Hin|Hn]; [exact Hin|].
+    exfalso. apply H. apply best_none. split; [reflexivity|].
+    intros s Hs Hc. apply Hn. apply in_flat_map. exists s. split; assumption.
+  - intros H Hb. apply in_flat_map in H. destruct H as [s [Hs Hi]].
+    apply best_none in Hb. destruct Hb as [_ Hb]. exact (Hb s Hs Hi).
+Qed.
+
+Lemma dom_cov_perm m l : Permutation (domain (pass1 (filter (valid m) l))) (covered m l).
+Proof.
+  apply NoDup_Permutation; [apply domain_nodup | apply NoDup_nodup|].
+  intros i. unfold covered. rewrite nodup_In. apply dom_cov.
+Qed.
+Lemma dom_cov_length m l : length (domain (pass1 (filter (valid m) l))) = length (covered m l).
+Proof. apply Permutation_length, dom_cov_perm. Qed.
+Lemma dom_cov_nil m l : domain (pass1 (filter (valid m) l)) = [] <-> covered m l = [].
+Proof.
+  split; intros H; apply length_zero_iff_nil; [rewrite <- dom_cov_length | rewrite dom_cov_length]; rewrite H; reflexivity.
+Qed.
+
+Lemma lookup_pass1_in V i o : lookup (pass1 V) i = Some o -> In o V /\ In i (idxs o).
+Proof.
+  rewrite lookup_pass1. intros H. apply best_some in H. destruct H as [H|H]; [discriminate | exact H].
+Qed.
+
+(* ------------------------------------------------------------------ soundness of a success *)
+Theorem select_sound m k l res : select m k l = Some res -> valid_quorum m k l res.
+Proof.
+  unfold select. set (V := filter (valid m) l). set (mp := pass1 V). set (D := domain mp).
+  intros H. destruct (pass2_some k mp D D [] [] 0 res H eq_refl eq_refl) as [seen [Hres [Hk [Hin Hnd]]]].
+  assert (HndS : NoDup (map key seen)) by (apply Hnd; constructor).
+  assert (Hown : forall s, In s seen -> exists i, In i D /\ lookup mp i = Some s).
+  { intros s Hs. destruct (Hin s Hs) as [[]|Hx]. exact Hx. }
+  subst res. unfold valid_quorum. repeat split.
+  - exact Hk.
+  - apply all_res_idx_nodup; [apply domain_nodup | exact HndS].
+  - rewrite map_key_rsig. exact HndS.
+  - apply in_map_iff in H0. destruct H0 as [s [<- Hs]]. destruct (Hown s Hs) as [i [Hi Hl]].
+    cbn [rsig with_idxs idxs]. intros Hc.
+    assert (Hin' : In i (owned mp D s)).
+    { apply owned_in. split; [exact Hi|]. exists s. split; [exact Hl | reflexivity]. }
+    rewrite Hc in Hin'. destruct Hin'.
+  - apply in_map_iff in H0. destruct H0 as [s [<- Hs]]. destruct (Hown s Hs) as [i [Hi Hl]].
+    apply lookup_pass1_in in Hl. destruct Hl as [HsV _]. apply filter_In in HsV. destruct HsV as [Hsl Hv].
+    exists s. split; [exact Hsl|]. split; [exact Hv | reflexivity].
+  - apply in_map_iff in H0. destruct H0 as [s [<- Hs]]. cbn [rsig with_idxs idxs] in H1.
+    apply owned_in in H1. destruct H1 as [_ [o [Ho _]]].
+    apply lookup_pass1_in in Ho. destruct Ho as [HoV Hio]. apply filter_In in HoV. destruct HoV as [_ Hv].
+    apply (valid_idx m o i Hv Hio).
+  - apply in_map_iff in H0. destruct H0 as [s [<- Hs]]. cbn [rsig with_idxs idxs] in H1.
+    apply owned_in in H1. destruct H1 as [_ [o [Ho Hk']]].
+    apply lookup_pass1_in in Ho. destruct Ho as [HoV Hio]. apply filter_In in HoV. destruct HoV as [Hol Hv].
+    exists o. split; [exact Hol|]. split; [exact Hv|]. split; [rewrite key_rsig; exact Hk'|].
+    split; [exact Hio | apply (valid_idx m o i Hv Hio)].
+Qed.
+
+(* ------------------------------------------------------------------ exact characterisation of success *)
+Lemma select_some_enough m k l res : select m k l = Some res ->
+  k <= N.of_nat (length (covered m l)) /\ covered m l <> [].
+Proof.
+  intros H. pose proof (select_sound m k l res H) as [Hk [Hnd _]].
+  revert H. unfold select. set (V := filter (valid m) l). set (mp := pass1 V). set (D := domain mp). intros H.
+  destruct (pass2_some k mp D D [] [] 0 res H eq_refl eq_refl) as [seen [Hres _]].
+  assert (Hlen : (length (all_res_idx res) <= length D)%nat).
+  { apply NoDup_incl_length; [exact Hnd|]. rewrite Hres. apply all_res_idx_incl. }
+  split.
+  - rewrite <- dom_cov_length. fold V mp D. lia.
+  - intros Hc. apply dom_cov_nil in Hc. fold V mp D in Hc. rewrite Hc in H. cbn [pass2] in H. discriminate.
+Qed.
+
+Lemma select_none_short m k l : select m k l = None ->
+  N.of_nat (length (covered m l)) < k \/ covered m l = [].
+Proof.
+  unfold select. set (V := filter (valid m) l). set (mp := pass1 V). set (D := domain mp). intros H.
+  destruct (pass2_none k mp D D [] [] 0 H eq_refl eq_refl (or_intror eq_refl)) as [seen [_ [Hall Hend]]].
+  destruct Hend as [Hlt| ->].
+  - left. rewrite <- dom_cov_length. fold V mp D.
+    assert (Hlen : (length D <= length (all_res_idx (map (rsig mp D) seen)))%nat).
+    { apply NoDup_incl_length; [apply domain_nodup|]. intros i Hi.
+      assert (Hl : lookup mp i <> None) by (apply domain_in; exact Hi).
+      destruct (lookup mp i) as [o|] eqn:Eo; [|congruence].
+      specialize (Hall i o Hi Eo). apply in_map_iff in Hall. destruct Hall as [s [Hks Hs]].
+      apply all_res_idx_in. exists s. split; [exact Hs|]. apply owned_in. split; [exact Hi|].
+      exists o. split; [exact Eo | symmetry; exact Hks]. }
+    lia.
+  - right. apply dom_cov_nil. fold V mp D. destruct D as [|d D'] eqn:ED; [reflexivity|].
+    exfalso. assert (Hd : In d (domain mp)) by (fold D; rewrite ED; left; reflexivity).
+    apply domain_in in Hd. destruct (lookup mp d) as [o|] eqn:Eo; [|congruence].
+    assert (Hd' : In d (d :: D')) by (left; reflexivity). apply (Hall d o Hd' Eo).
+Qed.
+
+Theorem select_success_iff m k l :
+  select m k l <> None <-> (k <= N.of_nat (length (covered m l)) /\ covered m l <> []).
+Proof.
+  split.
+  - intros H. destruct (select m k l) as [res|] eqn:E; [|congruence]. apply (select_some_enough m k l res E).
+  - intros [Hk Hne] Hn. destruct (select_none_short m k l Hn) as [Hlt|He]; [lia | contradiction].
+Qed.
+
+Theorem select_complete m k l :
+  0 < k -> k <= N.of_nat (length (covered m l)) ->
+  exists res, select m k l = Some res /\ valid_quorum m k l res.
+Proof.
+  intros Hpos Hk. destruct (select m k l) as [res|] eqn:E.
+  - exists res. split; [reflexivity | apply select_sound; exact E].
+  - exfalso. destruct (select_none_short m k l E) as [Hlt|He]; [lia|]. rewrite He in Hk. cbn in Hk. lia.
+Qed.
+
+(* ------------------------------------------------------------------ monotonicity, order, copies *)
+Lemma covered_incl m l l' :
+  (forall s, In s l -> valid m s = true -> In s l') -> incl (covered m l) (covered m l').
+Proof.
+  intros H i. unfold covered. rewrite !nodup_In, !in_flat_map. intros [s [Hs Hi]].
+  apply filter_In in Hs. destruct Hs as [Hs Hv]. exists s. split; [|exact Hi].
+  apply filter_In. split; [apply H; assumption | exact Hv].
+Qed.
+
+Theorem select_monotone m k l l' :
+  (forall s, In s l -> valid m s = true -> In s l') ->
+  select m k l <> None -> select m k l' <> None.
+Proof.
+  intros H Hs. apply select_success_iff in Hs. destruct Hs as [Hk Hne]. apply select_success_iff.
+  pose proof (covered_incl m l l' H) as Hincl.
+  assert (Hlen : (length (covered m l) <= length (covered m l'))%nat).
+  { apply NoDup_incl_length; [apply NoDup_nodup | exact Hincl]. }
+  split; [lia|]. intros Hc. destruct (covered m l) as [|x r] eqn:E; [congruence|].
+  specialize (Hincl x (or_introl eq_refl)). rewrite Hc in Hincl. destruct Hincl.
+Qed.
+
+Theorem select_monotone_quorum m k l l' res :
+  (forall s, In s l -> valid m s = true -> In s l') ->
+  select m k l = Some res -> exists res', select m k l' = Some res' /\ valid_quorum m k l' res'.
+Proof.
+  intros H Hs. assert (Hn : select m k l' <> None) by (apply (select_monotone m k l l' H); congruence).
+  destruct (select m k l') as [res'|] eqn:E; [|congruence]. exists res'. split; [reflexivity | apply select_sound; exact E].
+Qed.
+
+Theorem select_perm_success m k l l' : Permutation l l' ->
+  (select m k l <> None <-> select m k l' <> None).
+Proof.
+  intros Hp. split; apply select_monotone; intros s Hs _.
+  - eapply Permutation_in; eassumption.
+  - eapply Permutation_in; [apply Permutation_sym|]; eassumption.
+Qed.
 
 (* ------------------------------------------------------------------ junk *)
 Lemma filter_app_junk (m : N) (l1 bad l2 : list sr) :
